@@ -1655,3 +1655,570 @@ def observe_c09(idnt):
         ob["rating"] = [enc(r[0]), enc(r[1]),
                         "ts", enc(r[3]), enc(r[4]), enc(r[5])]
     return ob
+
+
+# ==========================================================================
+# C10: arguments are taken by value (twin worlds)
+# ==========================================================================
+class SkipOp(Exception):
+    pass
+
+
+class Caller:
+    """The simulated caller of one world. In the alias world it passes the
+    very objects it holds (and holds the very objects it got back); in the
+    value world it passes deep copies and copies what it gets back."""
+
+    def __init__(self, alias):
+        self.alias = alias
+        self.slots = {}
+
+    def arg(self, ref, idnt=None, kw_model=None):
+        if isinstance(ref, dict) and "slot" in ref:
+            if ref["slot"] not in self.slots:
+                raise SkipOp()
+            obj = self.slots[ref["slot"]]
+            return obj if self.alias else copy.deepcopy(obj)
+        if isinstance(ref, dict) and "params_spec" in ref:
+            return build_params(ref["params_spec"], idnt, kw_model)
+        return copy.deepcopy(ref)
+
+    def hold(self, slot, obj, returned=False):
+        if returned and not self.alias:
+            obj = copy.deepcopy(obj)
+        self.slots[slot] = obj
+
+
+def mutate_held(obj, edit):
+    """In-place edit of a held object; returns False if not applicable."""
+    import lmfit
+    k = edit["kind"]
+    try:
+        if k == "param":
+            if not isinstance(obj, lmfit.Parameters) or \
+                    edit["name"] not in obj:
+                return False
+            # documented workflow: edit attributes of the Parameter in place
+            setattr(obj[edit["name"]], edit["attr"], edit["value"])
+        elif k == "list_append":
+            if not isinstance(obj, list):
+                return False
+            obj.append(copy.deepcopy(edit["value"]))
+        elif k == "list_pop":
+            if not isinstance(obj, list) or not obj:
+                return False
+            obj.pop(edit.get("index", -1) % len(obj))
+        elif k == "list_set":
+            if not isinstance(obj, list) or not obj:
+                return False
+            obj[edit["index"] % len(obj)] = copy.deepcopy(edit["value"])
+        elif k == "dict_set":
+            if not isinstance(obj, dict):
+                return False
+            d = obj
+            for key in edit["path"][:-1]:
+                d = d.setdefault(key, {})
+                if not isinstance(d, dict):
+                    return False
+            d[edit["path"][-1]] = copy.deepcopy(edit["value"])
+        elif k == "dict_clear":
+            if not isinstance(obj, dict):
+                return False
+            obj.clear()
+        elif k == "array_scale":
+            if not isinstance(obj, np.ndarray):
+                return False
+            obj *= edit["factor"]
+        elif k == "array_set":
+            if not isinstance(obj, np.ndarray) or obj.size == 0:
+                return False
+            obj.flat[edit["index"] % obj.size] = edit["value"]
+        else:
+            return False
+    except Exception:
+        return False
+    return True
+
+
+def c10_new_object(what, spec, idnt):
+    if what == "params":
+        return build_params(spec, idnt)
+    if what == "force":
+        cfg = dict(spec)
+        arr = curves.make_curve(cfg)["force"]
+        return np.array(arr, copy=True)
+    if what == "xarray":
+        n = int(spec.get("n", 50))
+        lo, hi = spec.get("lo", -1e-6), spec.get("hi", 1e-6)
+        a = np.linspace(hi, lo, n)
+        return a if spec.get("descending", True) else a[::-1].copy()
+    if what == "samples":
+        rng = np.random.Generator(np.random.PCG64(int(spec.get("seed", 1))))
+        return rng.random((int(spec.get("rows", 2)), 15))
+    return copy.deepcopy(spec)     # steps, options, method_kws, range_x, names
+
+
+def c10_apply(idnt, caller, op):
+    """Apply one op in one world. Returns (outcome, [(argname, before,
+    after)])."""
+    import nanite.poc
+    from nanite import model as nmodel
+    from nanite.rate.features import IndentationFeatures
+    kind = op["op"]
+    PLAN.disarm()
+    if op.get("fault"):
+        PLAN.arm(op["fault"])
+    out = {"ok": True}
+    held_args = []     # (name, object) to check for library-side mutation
+
+    def A(name, ref, **kw):
+        obj = caller.arg(ref, idnt, **kw)
+        if isinstance(obj, (list, dict, np.ndarray)) or \
+                type(obj).__name__ == "Parameters":
+            held_args.append((name, obj, enc_full(obj)))
+        return obj
+
+    nmin0 = PLAN.total["minimize"]
+    try:
+        with warnings.catch_warnings():
+            warnings.simplefilter("ignore")
+            if kind == "new":
+                caller.hold(op["slot"], c10_new_object(op["what"],
+                                                       op.get("spec"), idnt))
+                return None, []
+            if kind == "mutate":
+                if op["slot"] not in caller.slots:
+                    return None, []
+                mutate_held(caller.slots[op["slot"]], op["edit"])
+                return None, []
+            if kind == "get_init":
+                p = idnt.get_initial_fit_parameters(
+                    model_key=op.get("model_key"))
+                out["ret"] = enc_params(p)
+                caller.hold(op["slot"], p, returned=True)
+            elif kind == "fit":
+                kw = {}
+                for k in sorted(op.get("args", {})):
+                    kw[k] = A(k, op["args"][k],
+                              kw_model=op["args"].get("model_key")
+                              if isinstance(op["args"].get("model_key"),
+                                            str) else None)
+                idnt.fit_model(**kw)
+            elif kind == "prep":
+                steps = A("steps", op["steps"])
+                options = A("options", op.get("options"))
+                route = op.get("route", "apply")
+                if route == "apply":
+                    idnt.apply_preprocessing(steps, options)
+                elif route == "details":
+                    idnt.apply_preprocessing(steps, options,
+                                             ret_details=True)
+                else:
+                    kw = {"preprocessing": steps}
+                    if options is not None:
+                        kw["preprocessing_options"] = options
+                    idnt.fit_model(**kw)
+            elif kind == "setfp":
+                idnt.fit_properties[op["key"]] = A(op["key"], op["value"])
+            elif kind == "poc":
+                force = A("force", op["force"])
+                out["ret"] = int(nanite.poc.compute_poc(
+                    force=force, method=op.get("method",
+                                               "deviation_from_baseline")))
+            elif kind == "model":
+                md = nmodel.models_available[op["model"]]
+                params = A("params", op["params"])
+                x = A("x", op["x"])
+                if op.get("residual"):
+                    y = A("y", op["y"])
+                    r = md.residual(params, x, y, op.get("weight_cp", 5e-7))
+                else:
+                    r = md.model(params, x)
+                out["ret"] = digest_array(np.asarray(r))
+            elif kind == "features":
+                names = A("names", op["names"])
+                r = IndentationFeatures.compute_features(
+                    idnt, which_type=op.get("which_type", "all"),
+                    names=names)
+                out["ret"] = digest_array(np.asarray(r))
+            elif kind == "rate":
+                kw = {}
+                for k in sorted(op.get("args", {})):
+                    kw[k] = A(k, op["args"][k])
+                out["ret"] = fhex(idnt.rate_quality(**kw))
+            elif kind == "rate_samples":
+                samples = A("samples", op["samples"])
+                rater = RATERS.get("Decision Tree")
+                out["ret"] = digest_array(np.asarray(
+                    rater.rate(samples=samples)))
+            elif kind == "emod":
+                e, d = idnt.compute_emodulus_mindelta()
+                out["ret"] = [digest_array(e), digest_array(d)]
+            else:
+                raise core.HarnessError(f"unknown op {kind}")
+    except SkipOp:
+        return None, []
+    except core.HarnessError:
+        raise
+    except core.INJECTED as e:
+        out = {"ok": False, "exc": type(e).__name__, "injected": True}
+    except _caught() as e:
+        out = {"ok": False, "exc": type(e).__name__, "msg": str(e)[:120]}
+    finally:
+        if PLAN.fired:
+            out["fired"] = dict(PLAN.fired)
+        PLAN.disarm()
+    out["minimize_calls"] = PLAN.total["minimize"] - nmin0
+    changed = [(n, b, enc_full(o)) for n, o, b in held_args]
+    return out, changed
+
+
+def enc_full(v):
+    """Deep value snapshot (arrays by digest, params by all attributes)."""
+    import lmfit
+    if isinstance(v, lmfit.Parameters):
+        return {"__params__": [[n, fhex(q.value), fhex(q.min), fhex(q.max),
+                                bool(q.vary), q.expr,
+                                fhex(q.brute_step) if q.brute_step is not None
+                                else None]
+                               for n, q in v.items()]}
+    return enc(v)
+
+
+def c10_gen_scenario(rng, sid):
+    """A few ops that hold an object, pass it, edit it in place and pass it
+    again."""
+    kind = rng.choice(["params", "params", "init", "init", "steps",
+                       "options", "method_kws", "range_x", "names",
+                       "force", "model", "samples"])
+    s = f"{kind}{sid}"
+    extra = {}
+    if rng.random() < 0.4:
+        extra["gcf_k"] = rng.choice([0.5, 0.6135, 2.0])
+    if rng.random() < 0.3:
+        extra["range_type"] = "relative cp"
+        extra["range_x"] = rng.choice([[-1e-6, 5e-7], [-5e-7, 1e-6]])
+    if rng.random() < 0.2:
+        extra["optimal_fit_edelta"] = True
+        extra["optimal_fit_num_samples"] = 5
+    mk = rng.choice(["hertz_para", "hertz_cone", "sneddon_spher_approx",
+                     "hertz_pyr3s"])
+    pedits = [
+        {"kind": "param", "name": "E", "attr": "value",
+         "value": rng.choice([800.0, 5000.0, 2e4])},
+        {"kind": "param", "name": "contact_point", "attr": "value",
+         "value": rng.choice([1e-7, -2e-7, 5e-8])},
+        {"kind": "param", "name": "baseline", "attr": "vary",
+         "value": False},
+        {"kind": "param", "name": "E", "attr": "max", "value": 1e5},
+        {"kind": "param", "name": "contact_point", "attr": "vary",
+         "value": False},
+        {"kind": "param", "name": rng.choice(["R", "alpha", "nu"]),
+         "attr": "value", "value": rng.choice([0.4, 3e-6, 12])},
+    ]
+    ops = []
+    if kind == "params":
+        ops.append({"op": "new", "slot": s, "what": "params",
+                    "spec": {"model": mk, "edits": {}}})
+        ops.append({"op": "fit", "args": dict(
+            extra, model_key=mk, params_initial={"slot": s})})
+        ops.append({"op": "mutate", "slot": s, "edit": rng.choice(pedits)})
+        ops.append({"op": "fit", "args": dict(
+            extra, model_key=mk, params_initial={"slot": s})})
+    elif kind == "init":
+        if rng.random() < 0.5:
+            ops.append({"op": "fit", "args": dict(extra, model_key=mk)})
+        ops.append({"op": "get_init", "slot": s,
+                    "model_key": rng.choice([None, mk])})
+        ops.append({"op": "mutate", "slot": s, "edit": rng.choice(pedits)})
+        ops.append({"op": "fit", "args": dict(
+            extra, params_initial={"slot": s})})
+        if rng.random() < 0.5:
+            ops.append({"op": "mutate", "slot": s,
+                        "edit": rng.choice(pedits)})
+            ops.append({"op": "fit", "args": {"params_initial":
+                                              {"slot": s}}})
+    elif kind == "steps":
+        steps = gen_pipeline(rng)
+        ops.append({"op": "new", "slot": s, "what": "steps", "spec": steps})
+        route = rng.choice(["apply", "fit_kw", "details"])
+        ops.append({"op": "prep", "steps": {"slot": s}, "options": None,
+                    "route": route})
+        missing = [x for x in ["smooth_height", "correct_force_offset",
+                               "correct_split_approach_retract"]
+                   if x not in steps]
+        if missing and rng.random() < 0.6 and "compute_tip_position" in steps:
+            ed = {"kind": "list_append", "value": rng.choice(missing)}
+        elif len(steps) > 1:
+            ed = {"kind": "list_pop", "index": -1}
+        else:
+            ed = {"kind": "list_append", "value": "smooth_height"}
+        ops.append({"op": "mutate", "slot": s, "edit": ed})
+        ops.append({"op": "prep", "steps": {"slot": s}, "options": None,
+                    "route": rng.choice(["apply", "fit_kw"])})
+    elif kind == "options":
+        steps = ["compute_tip_position", "correct_force_offset",
+                 "correct_tip_offset"]
+        if rng.random() < 0.5:
+            steps.append("correct_force_slope")
+        opts = {"correct_tip_offset": {"method": "deviation_from_baseline"}}
+        if "correct_force_slope" in steps:
+            opts["correct_force_slope"] = {"region": "baseline",
+                                           "strategy": "shift"}
+        ops.append({"op": "new", "slot": s, "what": "options", "spec": opts})
+        route = rng.choice(["apply", "fit_kw", "details"])
+        ops.append({"op": "prep", "steps": steps, "options": {"slot": s},
+                    "route": route})
+        if "correct_force_slope" in steps and rng.random() < 0.5:
+            ed = {"kind": "dict_set",
+                  "path": ["correct_force_slope",
+                           rng.choice(["region", "strategy"])],
+                  "value": rng.choice(["all", "approach", "drift"])}
+            if ed["path"][1] == "strategy":
+                ed["value"] = "drift"
+            elif ed["value"] == "drift":
+                ed["value"] = "all"
+        else:
+            ed = {"kind": "dict_set", "path": ["correct_tip_offset",
+                                               "method"],
+                  "value": rng.choice(["gradient_zero_crossing",
+                                       "frechet_direct_path",
+                                       "fit_constant_line"])}
+        ops.append({"op": "mutate", "slot": s, "edit": ed})
+        ops.append({"op": "prep", "steps": steps, "options": {"slot": s},
+                    "route": rng.choice(["apply", "fit_kw"])})
+    elif kind == "method_kws":
+        ops.append({"op": "new", "slot": s, "what": "method_kws",
+                    "spec": {"max_nfev": 300}})
+        ops.append({"op": "fit", "args": dict(extra,
+                                              method_kws={"slot": s})})
+        ops.append({"op": "mutate", "slot": s, "edit": {
+            "kind": "dict_set", "path": ["max_nfev"],
+            "value": rng.choice([4, 8, 12])}})
+        ops.append({"op": "fit", "args": {"method_kws": {"slot": s}}})
+    elif kind == "range_x":
+        extra.pop("range_x", None)
+        extra.pop("optimal_fit_edelta", None)
+        ops.append({"op": "new", "slot": s, "what": "range_x",
+                    "spec": [-1e-6, 5e-7]})
+        ops.append({"op": "fit", "args": dict(extra, range_x={"slot": s})})
+        ops.append({"op": "mutate", "slot": s, "edit": {
+            "kind": "list_set", "index": rng.choice([0, 1]),
+            "value": rng.choice([-3e-7, 2e-7, -6e-7])}})
+        ops.append({"op": "fit", "args": {"range_x": {"slot": s}}})
+    elif kind == "names":
+        names = rng.sample(CON_FEATURES, 3)
+        ops.append({"op": "new", "slot": s, "what": "names", "spec": names})
+        ops.append({"op": "fit", "args": {}})
+        if rng.random() < 0.5:
+            ops.append({"op": "features", "names": {"slot": s},
+                        "which_type": rng.choice(["all", "continuous"])})
+        ops.append({"op": "rate", "args": {"regressor": "Decision Tree",
+                                           "names": {"slot": s}}})
+        ops.append({"op": "mutate", "slot": s, "edit": {
+            "kind": "list_append",
+            "value": rng.choice([c for c in CON_FEATURES
+                                 if c not in names])}})
+        ops.append({"op": "rate", "args": {"regressor": "Decision Tree",
+                                           "names": {"slot": s}}})
+    elif kind == "force":
+        ops.append({"op": "new", "slot": s, "what": "force", "spec": {
+            "kind": "synthetic", "model": mk, "n": rng.choice([80, 200]),
+            "noise": 0.01, "seed": rng.randrange(100)}})
+        ops.append({"op": "poc", "force": {"slot": s},
+                    "method": rng.choice(POC_METHODS)})
+        ops.append({"op": "mutate", "slot": s, "edit": {
+            "kind": "array_scale", "factor": 2.0}})
+        ops.append({"op": "poc", "force": {"slot": s},
+                    "method": rng.choice(POC_METHODS)})
+    elif kind == "model":
+        ops.append({"op": "new", "slot": s + "p", "what": "params",
+                    "spec": {"model": mk, "edits": {}}})
+        ops.append({"op": "new", "slot": s + "x", "what": "xarray",
+                    "spec": {"n": 40, "descending": rng.random() < 0.5}})
+        ops.append({"op": "new", "slot": s + "y", "what": "xarray",
+                    "spec": {"n": 40, "lo": 0, "hi": 1e-9}})
+        for _ in range(2):
+            ops.append({"op": "model", "model": mk,
+                        "params": {"slot": s + "p"}, "x": {"slot": s + "x"},
+                        "y": {"slot": s + "y"},
+                        "residual": rng.random() < 0.6,
+                        "weight_cp": rng.choice([0, 5e-7])})
+            ops.append({"op": "mutate", "slot": s + "p",
+                        "edit": rng.choice(pedits[:2])})
+    else:
+        ops.append({"op": "new", "slot": s, "what": "samples",
+                    "spec": {"seed": rng.randrange(100),
+                             "rows": rng.choice([1, 3])}})
+        ops.append({"op": "rate_samples", "samples": {"slot": s}})
+        ops.append({"op": "mutate", "slot": s, "edit": {
+            "kind": "array_set", "index": rng.randrange(40),
+            "value": 0.5}})
+        ops.append({"op": "rate_samples", "samples": {"slot": s}})
+    return ops
+
+
+class CurveEngineC10:
+    prop = "C10"
+    components = COMPONENTS
+    assumptions = [
+        "objects the caller holds: ones it created and passed, and return "
+        "values of get_initial_fit_parameters(); reads of public attributes "
+        "or of fit_properties items are not treated as 'returned objects' "
+        "(editing those is editing settings)",
+        "the two worlds run the same op list in one process, op by op; "
+        "observations are compared after every library call, not after the "
+        "caller's own edits",
+        "A2 snapshots lmfit parameters by value/min/max/vary/expr/"
+        "brute_step, arrays by bytes",
+    ]
+    rule_text = (
+        "twin-world simulation: the same seeded op list (2-5 scenarios of "
+        "hold / pass / edit in place / pass again over parameter sets, step "
+        "lists, option and method dictionaries, ranges, feature-name lists, "
+        "force and sample arrays, with gcf_k, multi-pass ranges and plateau "
+        "search mixed in) is executed by an aliasing caller and by a "
+        "by-value caller; A1: outcomes and full curve observations identical "
+        "after every call; A2: every argument unchanged by the call. "
+        "distinct = op-list digest; non-trivial = a held object was edited "
+        "in place and then passed again")
+
+    def generate(self, rng, tier, index):
+        cfg = curves.gen_curve_cfg(rng, allow_recorded=rng.random() < 0.2)
+        nsc = rng.choice([1, 2, 2, 3] if tier == "quick" else [2, 3, 4, 5])
+        ops = [{"op": "prep", "steps": ["compute_tip_position",
+                                        "correct_force_offset",
+                                        "correct_tip_offset"],
+                "options": None, "route": "apply"}]
+        scen = [c10_gen_scenario(rng, k) for k in range(nsc)]
+        if rng.random() < 0.5:
+            # interleave scenarios, keeping each one's internal order
+            while any(scen):
+                sc = rng.choice([x for x in scen if x])
+                ops.append(sc.pop(0))
+        else:
+            for sc in scen:
+                ops.extend(sc)
+        if rng.random() < 0.3:
+            pos = rng.randrange(1, len(ops) + 1)
+            ops.insert(pos, {"op": "emod"})
+            ops.insert(pos, {"op": "setfp", "key": "optimal_fit_num_samples",
+                             "value": 5})
+        return {"config": {"curve": cfg}, "ops": ops}
+
+    def execute(self, run):
+        seams.install_curve_seams()
+        seams.install_sim_model()
+        seams.install_lmfit_determinism()
+        seams.install_rater_memo(RATERS)
+        cfg = run["config"]["curve"]
+        worlds = [(curves.make_curve(cfg), Caller(True)),
+                  (curves.make_curve(cfg), Caller(False))]
+        log = []
+        probes = core.collections.Counter()
+        states = set()
+        violation = None
+        edited = set()
+        nontrivial = False
+        oracle_checks = 0
+        executed = 0
+        for i, op in enumerate(run["ops"]):
+            res = []
+            for idnt, caller in worlds:
+                res.append(c10_apply(idnt, caller, op))
+            (oa, ca), (ov, cv) = res
+            if op["op"] == "mutate":
+                edited.add(op["slot"])
+                continue
+            if oa is None and ov is None:
+                continue
+            executed += 1
+            passed = [v["slot"] for v in _slot_refs(op)]
+            if any(sl in edited for sl in passed):
+                nontrivial = True
+                probes["edited object passed again"] += 1
+            oracle_checks += 1
+            feats = {"op": op["op"], "passed": sorted(
+                set(x.rstrip("0123456789") for x in passed))}
+            # A2: arguments unchanged
+            for world, ch in (("alias", ca), ("value", cv)):
+                for name, before, after in ch:
+                    if before != after:
+                        feats["arg"] = name
+                        feats["world"] = world
+                        violation = make_violation(
+                            self.prop, "A2", f"mutated:{op['op']}:{name}",
+                            feats,
+                            f"argument {name!r} of {op['op']} was modified "
+                            f"by the call: {str(before)[:200]} -> "
+                            f"{str(after)[:200]}", i)
+                        break
+                if violation:
+                    break
+            if violation:
+                break
+            # A1: worlds agree
+            oba, obv = observe(worlds[0][0]), observe(worlds[1][0])
+            log.append({"i": i, "op": op["op"], "out": oa,
+                        "obs": core.digest(oba)})
+            states.add(core.digest([op["op"], feats["passed"],
+                                    oa.get("ok"), oa.get("minimize_calls", 0)
+                                    > 0]))
+            if oa != ov:
+                violation = make_violation(
+                    self.prop, "A1", f"outcome:{op['op']}", feats,
+                    f"call outcome differs between the aliasing and the "
+                    f"by-value caller: {core.jdump(oa)[:300]} vs "
+                    f"{core.jdump(ov)[:300]}", i)
+                break
+            if oba != obv:
+                site = "obs"
+                for part in ("fp", "cols", "preprocessing",
+                             "preprocessing_options", "rating"):
+                    if oba[part] != obv[part]:
+                        site = f"obs:{part}"
+                        if isinstance(oba[part], dict):
+                            for k in sorted(set(oba[part]) | set(obv[part])):
+                                if oba[part].get(k) != obv[part].get(k):
+                                    site = f"obs:{part}:{k}"
+                                    break
+                        break
+                violation = make_violation(
+                    self.prop, "A1", site, feats,
+                    f"curve state after {op['op']} differs between the "
+                    f"aliasing and the by-value caller ({site})", i)
+                break
+        return {"violation": violation, "log_digest": core.digest(log),
+                "log": log, "probes": dict(probes), "faults": {},
+                "states": sorted(states), "nontrivial": nontrivial,
+                "oracle_checks": oracle_checks, "ops_executed": executed}
+
+    def simplify_op(self, op):
+        if op["op"] == "fit" and op.get("args"):
+            for k in sorted(op["args"]):
+                o = copy.deepcopy(op)
+                o["args"].pop(k)
+                yield o
+        if op["op"] == "prep" and op.get("route") != "apply":
+            o = copy.deepcopy(op)
+            o["route"] = "apply"
+            yield o
+
+
+def _slot_refs(op):
+    out = []
+
+    def walk(v):
+        if isinstance(v, dict):
+            if "slot" in v and len(v) == 1:
+                out.append(v)
+            else:
+                for x in v.values():
+                    walk(x)
+        elif isinstance(v, list):
+            for x in v:
+                walk(x)
+    for k, v in op.items():
+        if k not in ("op", "slot"):
+            walk(v)
+    return out
